@@ -190,6 +190,7 @@ class State(metaclass=StateMeta):
 
     def __init__(
         self,
+        /,
         **kwargs: Any,
     ) -> None:
         for name, attribute in self.__ATTRIBUTES__.items():
@@ -206,6 +207,7 @@ class State(metaclass=StateMeta):
 
     def updated(
         self,
+        /,
         **kwargs: Any,
     ) -> Self:
         return self.__replace__(**kwargs)
@@ -277,6 +279,7 @@ class State(metaclass=StateMeta):
 
     def __replace__(
         self,
+        /,
         **kwargs: Any,
     ) -> Self:
         return self.__class__(
